@@ -56,6 +56,7 @@ func runCmdWorld(w *simrt.World, orig func()) {
 	var sess struct {
 		Prelude   [][]string `json:"prelude"`
 		PreludeWd []string   `json:"prelude_wd"` // per earlier invocation: "" = sdk.InvokeThriftgo, else sdk.RunThriftgoAsSDK(wd, ...)
+		PreludeRemove []string `json:"prelude_remove"` // removed after the earlier invocations (an obstacle that made one of them fail, repaired before the observed one)
 		SdkWd     string     `json:"sdk_wd"`     // not empty: the invocation under observation is sdk.RunThriftgoAsSDK(wd, nil, args...) instead of main()
 	}
 	if len(w.Spec.Driver) > 0 {
@@ -80,6 +81,9 @@ func runCmdWorld(w *simrt.World, orig func()) {
 				}
 				simrt.Log("prelude.done", fmt.Sprintf("%d err=%v", i, err != nil))
 			}()
+		}
+		for _, p := range sess.PreludeRemove {
+			_ = simrt.Remove(p)
 		}
 		if len(sess.Prelude) > 0 {
 			simrt.Boundary("main")
